@@ -1,2 +1,52 @@
-(* C09_Spec.v — placeholder, filled in below *)
+(* C09_Spec.v — the declarative side: what a reader of a length-prefixed stream must
+   report, as a function of the WHOLE byte string the peer produced and of what the
+   peer did afterwards (closed the stream, failed, or stalled).  No read schedule
+   appears here; the theorems say that the code's result equals this for every schedule. *)
 From V Require Export C09_Model.
+Open Scope N_scope.
+
+(* the first `want` bytes of d, if d has that many *)
+Inductive take_res := TkDone (got rest : bytes) | TkShort (n : nat).
+Definition take (want : N) (d : bytes) : take_res :=
+  if want <=? N.of_nat (length d)
+  then TkDone (firstn (N.to_nat want) d) (skipn (N.to_nat want) d)
+  else TkShort (length d).
+
+(* the stream ended (or stalled) after n bytes of a unit of which `expecting` were due *)
+Definition short_outcome (tl : tail_t) (in_body : bool) (n : nat) (expecting : N) : final :=
+  match tl with
+  | TEOF => FErr (if in_body || (0 <? n)%nat then MUnexpected else MEOF) 0
+  | TFail => FErr MIO 0
+  | TBlock => FTimeout in_body n expecting
+  end.
+
+Definition over (max : option N) (size : N) : bool :=
+  match max with Some mx => mx <? size | None => false end.
+
+(* greedy parse of the whole stream: messages, then how it ends *)
+Fixpoint spec_read (fuel : nat) (max : option N) (tl : tail_t) (d : bytes) : list bytes * final :=
+  match fuel with
+  | O => ([], FFuel)
+  | S f =>
+    match take 4 d with
+    | TkShort n => ([], short_outcome tl false n 4)
+    | TkDone p r =>
+      let size := be_decode p 0 in
+      if over max size then ([], FErr MOversize (length r))
+      else match take size r with
+           | TkShort n => ([], short_outcome tl true n size)
+           | TkDone m r' => let (ms, e) := spec_read f max tl r' in (m :: ms, e)
+           end
+    end
+  end.
+
+Definition expected (max : option N) (tl : tail_t) (d : bytes) : list bytes * final :=
+  spec_read (S (length d)) max tl d.
+
+(* JSON variant: what is asked of the scanner oracle for the values an encoder wrote.
+   v ranges over the marshalled messages (never empty, never starting with white space). *)
+Definition scanner_ok (scan : bytes -> scan_res) (v : bytes) : Prop :=
+  (forall rest, scan (v ++ rest) = SComplete v rest) /\
+  (forall p, (length p < length v)%nat -> p = firstn (length p) v -> scan p = SNeedMore) /\
+  (forall rest, scan (10 :: rest) = scan rest) /\
+  non_space v = true.
